@@ -4,6 +4,7 @@
 
 pub mod alloc;
 pub mod bfs;
+pub mod collide;
 pub mod driver;
 pub mod isolate;
 pub mod tally;
